@@ -315,6 +315,27 @@ func decryptAll(file []byte, armored bool, id *age.X25519Identity) ([]byte, erro
 	return io.ReadAll(r)
 }
 
+// cleanRoundTrip encrypts a short plaintext to a healthy destination and decrypts it again; "" if all is well.
+func cleanRoundTrip(ids []*age.X25519Identity, armored bool) string {
+	pt := []byte("the stream after the one that failed")
+	var buf bytes.Buffer
+	ok, pan := encryptTo(&buf, ids, encCase{len(pt), armored, 1}, pt)
+	if pan != nil {
+		return fmt.Sprintf("panics: %v", pan)
+	}
+	if !ok {
+		return "" // a reported failure is not silent
+	}
+	got, err := decryptAll(buf.Bytes(), armored, ids[0])
+	if err != nil {
+		return fmt.Sprintf("writes a file that does not decrypt: %v", err)
+	}
+	if !bytes.Equal(got, pt) {
+		return "writes a file that decrypts to something else"
+	}
+	return ""
+}
+
 // dstFaults: the destination fails at every call index / byte offset.
 func dstFaults(run *vk.Run, ids []*age.X25519Identity, seed int64) {
 	rng := rand.New(rand.NewSource(seed))
@@ -392,6 +413,12 @@ func dstFaults(run *vk.Run, ids []*age.X25519Identity, seed int64) {
 				return
 			}
 			if !dst.Fired {
+				return
+			}
+			// what failed must not reach into the next stream of the process: a fresh encryption right after, on the same
+			// goroutine, to a healthy destination must give a complete valid file
+			if why := cleanRoundTrip(ids, cc.armored); why != "" {
+				run.Violation("C13:failure-leaks-into-next-stream:"+sig, fmt.Sprintf("after a destination failure (call %d / byte %d, once=%v) the next encryption of the process, to a healthy destination, reports success and %s", p.call, p.byt, p.once, why), rp)
 				return
 			}
 			if ok {
@@ -536,6 +563,11 @@ func srcFaults(run *vk.Run, id *age.X25519Identity, seed int64) {
 					fired = src.(*partialErr).Fired
 				}
 				if !fired {
+					return
+				}
+				// what failed must not reach into the next stream of the process (pooled buffers, cached state)
+				if why := cleanRoundTrip([]*age.X25519Identity{id}, a); why != "" {
+					run.Violation("C13:failure-leaks-into-next-stream:"+sig, fmt.Sprintf("after a source failure at offset %d the next encryption and decryption of the process, on healthy streams, %s", p.off, why), rp)
 					return
 				}
 				if len(res.Data) > len(pt) || !bytes.Equal(res.Data, pt[:len(res.Data)]) {
